@@ -277,6 +277,9 @@ func cliConsumers(ckBase bool) []consumer {
 		{name: "validate-dev", model: "validate-dev", args: []string{"migrate", "validate", "--dir", "file://d", "--dev-url", devURL}},
 		{name: "new", model: "new", args: []string{"migrate", "new", "later", "--dir", "file://d"}},
 		{name: "hash", model: "hash", args: []string{"migrate", "hash", "--dir", "file://d"}},
+		{name: "import-goose", model: "import", args: []string{"migrate", "import", "--from", "file://d?format=goose", "--to", "file://out"}},
+		{name: "apply-env", model: "apply", db: true, args: []string{"migrate", "apply", "--env", "e"}},
+		{name: "status-env", model: "status", db: true, args: []string{"migrate", "status", "--env", "e"}},
 		{name: "schema-apply", model: "statesql", db: true, args: []string{"schema", "apply", "--to", "file://d?format=atlas", "--url", "sqlite://db.sqlite", "--dev-url", devURL, "--exclude", "atlas_schema_revisions", "--auto-approve"}},
 		{name: "schema-apply-dry", model: "statesql", db: true, args: []string{"schema", "apply", "--to", "file://d?format=atlas", "--url", "sqlite://db.sqlite", "--dev-url", devURL, "--exclude", "atlas_schema_revisions", "--dry-run"}},
 		{name: "schema-diff-from", model: "statesql", db: true, args: []string{"schema", "diff", "--from", "file://d?format=atlas", "--to", "sqlite://db.sqlite", "--dev-url", devURL, "--exclude", "atlas_schema_revisions"}},
@@ -457,6 +460,7 @@ func runCliJob(j *cliJob, root, stateRoot string, seq int) {
 		return
 	}
 	os.WriteFile(filepath.Join(T, "schema.sql"), []byte(j.base.schema), 0o644)
+	os.WriteFile(filepath.Join(T, "atlas.hcl"), []byte("env \"e\" {\n  url = \"sqlite://db.sqlite\"\n  dev = \"sqlite://dev?mode=memory\"\n  migration {\n    dir = \"file://d\"\n  }\n}\n"), 0o644)
 	api := func() *obsT {
 		ld, err := migrate.NewLocalDir(d)
 		if err != nil {
@@ -598,6 +602,10 @@ func genConsCLI(w *out.W, tier string) (rule string) {
 				if continue2 {
 					break
 				}
+				if j.cons.model == "import" && j.api.v == "notfound" {
+					w.Violation(id, "import-accepts-missing-sum", fmt.Sprintf("%s: atlas.sum is gone (migrate.Validate = ErrChecksumNotFound) but import went on: %s", what, res))
+					break
+				}
 				if j.cons.model == "lint" && j.api.v == "notfound" {
 					w.Violation(id, "lint-accepts-missing-sum", fmt.Sprintf("%s: atlas.sum is gone (migrate.Validate = ErrChecksumNotFound) but lint went on: %s", what, res))
 					break
@@ -630,7 +638,7 @@ func genConsCLI(w *out.W, tier string) (rule string) {
 		w.Case(id, fmt.Sprintf("%s %s %s %d", j.cons.model, vt, storeTokens(j.store, ckFlags(j.store)), setup),
 			[]string{fmt.Sprintf("out=%s v=%s", oc, j.api.v)})
 	}
-	return fmt.Sprintf("real CLI: %d runs = %d directories (3 plain files; 4 files with a checkpoint) x consumers (apply plain/1/2/--dry-run/--baseline/--allow-dirty/--tx-mode file|all|none/--exec-order linear|linear-skip|non-linear, status, set, lint, diff, validate, validate --dev-url, new, hash, schema apply / apply --dry-run / diff --from / diff --to with file://d?format=atlas, and with &version=V) x database states (fresh, all applied, 1 of 3, 2 of 3, file 2 partially applied, dirty) x tamperings (per file: byte replaced, appended, removed, renamed; added front/middle/end; per sum line: hash edited with/without recomputed header, name edited; header edited; atlas.sum empty; atlas.sum removed) + the untampered control of each", len(jobs), len(cliBases))
+	return fmt.Sprintf("real CLI: %d runs = %d directories (3 plain files; 4 files with a checkpoint) x consumers (apply plain/1/2/--dry-run/--baseline/--allow-dirty/--tx-mode file|all|none/--exec-order linear|linear-skip|non-linear, status, set, the two with --env (atlas.hcl), lint, diff, validate, validate --dev-url, new, import --from (goose reading of the directory), hash, schema apply / apply --dry-run / diff --from / diff --to with file://d?format=atlas, and with &version=V) x database states (fresh, all applied, 1 of 3, 2 of 3, file 2 partially applied, dirty) x tamperings (per file: byte replaced, appended, removed, renamed; added front/middle/end; per sum line: hash edited with/without recomputed header, name edited; header edited; atlas.sum empty; atlas.sum removed) + the untampered control of each", len(jobs), len(cliBases))
 }
 
 // ---------------------------------------------------------------- part 2: library
